@@ -128,6 +128,49 @@ pub fn part_c03(tier: Tier) -> Part {
     part
 }
 
+/// C03 on inlined code: `next` must pass over a call that was inlined (and over the calls inlined
+/// into that one) as over any other call.
+pub fn part_c03_inlined(tier: Tier) -> Part {
+    use crate::corpus::{Config, Stmt};
+    let mut part = Part::new("e2e-step-inlined-calls");
+    let cfg = ExploreCfg {
+        prop: "C03",
+        depth: if tier == Tier::Quick { 6 } else { 9 },
+        oracles: oracles_for("C03"),
+        steps: true,
+        restart: false,
+        failing: false,
+        remove_by_num: false,
+        bp_only_before_start: true,
+        continue_after_start: false,
+        watches: 0,
+        terminals: false,
+        ext_sigint: false,
+        wall: wall_cap(tier, 25, 1200),
+    };
+    let cfgs = if tier == Tier::Quick { vec![Config::default_cfg()] } else { vec![Config::default_cfg(), Config { toolchain: "stable".into(), opt: 0, dwarf: 5, pie: true }, Config { toolchain: "stable".into(), opt: 1, dwarf: 5, pie: false }] };
+    let progs = match crate::corpus::build_many(&[vec![Stmt::CallInl, Stmt::Assign]], &cfgs).and_then(prepare) {
+        Ok(p) => p,
+        Err(e) => {
+            part.violate("C03:machinery:corpus", e, json!({}));
+            part.exhaustive = false;
+            return part;
+        }
+    };
+    part.rule = "program whose main calls an #[inline(always)] function of the same file that contains a further inlined call followed by a statement of its own (nested DW_TAG_inlined_subroutine ranges), twice: every history of stepi / step / next / finish from the breakpoint at main up to the depth bound, judged by the C03 oracle plus: a `next` that did not start inside an inlined body of this file must not end inside one".into();
+    part.bounds = json!({"programs": progs.len(), "depth": cfg.depth, "wall_cap_s": cfg.wall.as_secs()});
+    let deadline = Instant::now() + cfg.wall;
+    for p in &progs {
+        explore_program(p, &[Cand::Fn("main".into())], &cfg, &mut part, deadline);
+    }
+    if Instant::now() > deadline {
+        part.exhaustive = false;
+        part.caps_hit.push("wall cap".into());
+    }
+    part.traces_validated = part.transitions;
+    part
+}
+
 pub fn part_c11(tier: Tier) -> Part {
     use crate::corpus::Stmt;
     let mut part = Part::new("e2e-lifecycle");
